@@ -1,6 +1,7 @@
 P = dict(
     harness='c02_selection.cpp',
-    variants=['asan'],
+    variants=['asan', 'memcheck'],
+    memcheck_stride=dict(quick=50, thorough=40),
     level='exploration',
     technique='runtime monitoring: scripted test shells with per-test execution counters, an independent std::string model of filter acceptance and of the selection rule, '
               'TestResult counters, a recording TestOutput parsed against the callback grammar, and a walk of the registry list after every reverse/shuffle; histories of several CommandLineTestRunner invocations on one registry, each judged against its own command line; ASan/UBSan build',
